@@ -1,4 +1,4 @@
 #!/bin/bash
 # usage: tools/mkvar.sh <diff> [dir]  — scratch copy of /repo with the diff applied (default /var/tmp/var)
-d=${2:-/var/tmp/var}; rm -rf "$d"; mkdir -p "$d"; rsync -a --exclude .git /repo/ "$d/"
-(cd "$d" && (git apply --whitespace=nowarn "$1" 2>/dev/null || patch -p1 -s < "$1")) && echo "$d"
+p=$(readlink -f "$1"); d=${2:-/var/tmp/var}; rm -rf "$d"; mkdir -p "$d"; rsync -a --exclude .git /repo/ "$d/"
+(cd "$d" && (git apply --whitespace=nowarn "$p" 2>/dev/null || patch -p1 -s < "$p")) && echo "$d"
